@@ -31,7 +31,7 @@ class MarkB(Plugin):
         return generated_code + "\\n# mark B"
 '''
 SDL = """
-type Query { user: User! me: User node(id: ID): Node thing: Thing users: [User!]! when(d: Date): Date count: Int! }
+type Query { user: User! me: User node(id: ID): Node thing: Thing users: [User!]! when(d: Date): Date count: Int! echo(query: String, variables: Int, response: ID, data: Int): Int }
 type Mutation { rename(name: String!, f: Filter): User }
 type Subscription { tick: Int! }
 interface Node { id: ID! }
@@ -50,6 +50,7 @@ query Fr { user { ...UF } }
 query Li { users { id } }
 query Sc($d: Date) { when(d: $d) }
 query Cnt { count }
+query Loc($query: String, $variables: Int, $response: ID, $data: Int) { echo(query: $query, variables: $variables, response: $response, data: $data) }
 mutation Mu($n: String!, $f: Filter) { rename(name: $n, f: $f) { id } }
 subscription Su { tick }
 query RootFr { ...OuterQ }
@@ -67,13 +68,14 @@ PAYLOADS = {
     "Li": {"users": [{"id": "1"}, {"id": "2"}]},
     "Sc": {"when": "2020-01-01"},
     "Cnt": {"count": 3},
+    "Loc": {"echo": 1},
     "Mu": {"rename": None},
     "Su": {"tick": 5},
     "RootFr": {"count": 4, "me": {"name": "z"}},
     "RootOne": {"count": 9},
     "RootMix": {"count": 1, "users": []},
 }
-SINGLE_TOP = {"One": "user", "Un": "thing", "Fr": "user", "Li": "users", "Sc": "when", "Cnt": "count", "Mu": "rename", "Su": "tick", "RootOne": "count"}
+SINGLE_TOP = {"One": "user", "Un": "thing", "Fr": "user", "Li": "users", "Sc": "when", "Cnt": "count", "Loc": "echo", "Mu": "rename", "Su": "tick", "RootOne": "count"}
 
 ORDERS = [()]
 for _k in range(1, 4):
